@@ -79,4 +79,30 @@ def run(ctx):
             if f.mod.startswith("radix_engine::" + layer):
                 counts[layer] = counts.get(layer, 0) + len(f.asserts) + sum(1 for c in f.calls if re.search(r"::(unwrap|expect)$|^core::panicking::", c[0]))
     ctx.note(f"unprotected panic-capable constructs by layer (inventory, not a verdict): {counts}")
+    ctx.rule("contradiction rule (Engler) over the auth-zone proof composition siblings: the proofs of an auth zone are of mixed kinds; "
+             "max_amount_locked / max_ids_locked read a proof's ProofRefs field as a typed (non-)fungible proof only behind a test of the proof's "
+             "blueprint name, so every other `as_typed(..).unwrap()` on a proof's field in that module must sit behind the same test (or handle "
+             "the decode error): an unguarded one panics — the native blueprint traps — on the first proof of the other kind")
+    AZC = "radix_engine::blueprints::resource::auth_zone::auth_zone_composition::"
+    readers = [n_ for n_, f_ in F.fns.items() if n_.startswith(AZC) and f_.root == n_ and any(c[0].endswith("IndexedScryptoValue::as_typed") for c in f_.calls)]
+    ctx.floor("auth-zone-composition|typed-proof-readers", len(readers), 4)
+    guarded_n = 0
+    for n_ in sorted(readers):
+        b = ctx.body(n_)
+        unwraps = [bb for bb, t in b.calls(r"Result(<[^>]*>)?::(unwrap|expect)$") if any(x.endswith("::as_typed") for x in origin_names(b, t["args"][0]))]
+        if not unwraps:
+            ctx.ob(f"auth-zone-composition|{n_.rsplit('::', 1)[1]}|typed-read", True, "decode errors of the proof field are handled (no unwrap)", b.loc())
+            continue
+        e, bl = [], []
+        for bb, tru, fal, si in b.call_bool_guards(r"::eq$"):
+            for a in si["atoms"]:
+                if a.kind == "call" and a.what.endswith("::eq") and any("PROOF_BLUEPRINT" in x for arg in a.extra["args"][:2] for x in origin_names(b, arg)):
+                    e.append((bb, tru)); bl.append(bb)
+        ok = bool(bl) and b.unreachable_without(unwraps, e)[0]
+        guarded_n += 1 if ok else 0
+        ctx.ob(f"auth-zone-composition|{n_.rsplit('::', 1)[1]}|typed-read-behind-blueprint-test", ok,
+               "the typed read of the proof's field is behind the blueprint-name test" if ok else
+               "a proof's ProofRefs field is decoded as one proof kind and unwrapped WITHOUT testing the proof's blueprint: a proof of the other kind "
+               "in the auth zone makes the native AuthZone blueprint trap (its sibling max_*_locked tests the blueprint first)", b.loc(unwraps[0]))
+    ctx.floor("auth-zone-composition|guarded-siblings (the belief the rule is inferred from)", guarded_n, 2)
     ctx.assume("absence of panics outside the native-VM unwind boundary and of traps inside native blueprints is value-dependent and not decided")
